@@ -42,7 +42,14 @@ func (p *BinaryProtocol) Skip(wireType proto.WireType, useNative bool) (err erro
 }
 
 // fast skip all elements in LIST/MAP
+// NOTICE: packed elements are taken to be varints; lists of fixed-width elements need SkipAllElementsWithType
 func (p *BinaryProtocol) SkipAllElements(fieldNumber proto.FieldNumber, ispacked bool) (size int, err error) {
+	return p.SkipAllElementsWithType(fieldNumber, ispacked, proto.VarintType)
+}
+
+// SkipAllElementsWithType skips all elements in LIST/MAP and counts them;
+// elemWireType is the wire type of ONE element of a packed list (varint, fixed32 or fixed64)
+func (p *BinaryProtocol) SkipAllElementsWithType(fieldNumber proto.FieldNumber, ispacked bool, elemWireType proto.WireType) (size int, err error) {
 	size = 0
 	if ispacked {
 		if _, _, _, err := p.ConsumeTag(); err != nil {
@@ -54,10 +61,14 @@ func (p *BinaryProtocol) SkipAllElements(fieldNumber proto.FieldNumber, ispacked
 		}
 		start := p.Read
 		for p.Read < start+int(bytelen) {
-			if _, err := p.ReadVarint(); err != nil {
+			if err := p.Skip(elemWireType, false); err != nil {
 				return -1, err
 			}
 			size++
+		}
+		if p.Read != start+int(bytelen) {
+			// the last element runs over the end of the packed payload
+			return -1, errDecodeField
 		}
 	} else {
 		for p.Read < len(p.Buf) {
